@@ -55,9 +55,6 @@ func runC05(w *mon.W) {
 			// subject = invoker (self-invocation through a chain that loops back)
 			s.Links[0].Aud = s.Subject
 			s.Invoker = s.Subject
-			if n >= 2 {
-				s.Links[1].Iss = s.Links[1].Iss // unchanged; link 0 issuer stays aligned with link 1 audience
-			}
 		}
 		avoid := []*gen.Principal{s.Subject, s.Invoker}
 		for _, l := range s.Links {
